@@ -1,4 +1,6 @@
 import PgBifrost.Proofs.LedgerSimple.Main
+import PgBifrost.Proofs.LedgerRefine
+import PgBifrost.Proofs.LedgerSpecSound
 /-!
 # C01 — no WAL position is acknowledged before its data is in the sink (property theorems)
 
@@ -16,5 +18,87 @@ theorem ledger_emit_safe_simple_partial {tr : List Op} (hC : Contract tr) (hS : 
     {i t k tot c : Nat} (hk : tr[i]? = some (Op.seen t k tot c true)) (hcv : c ≤ v) :
     wsum (tr.take n) k = tot :=
   emit_safe hC hS hemit hv hk hcv
+
+/-! ## The same statements about the FAITHFUL model (`PgBifrost.Ledger`: items + helper map) -/
+
+/-- **The tracker never panics (partial: under `NoStale`).** On a contract-respecting trace
+without stale keys, `updateSeen` never returns its `CommitWalStart was not 0` error, at any
+prefix. -/
+theorem ledger_never_panics_partial {tr : List Op} (hC : Contract tr) (hS : NoStale tr) (n : Nat) :
+    (PgBifrost.Ledger.run (tr.take n)).isSome := by
+  obtain ⟨s, hrun, _, _⟩ := PgBifrost.LedgerRefine.run_refine' hC hS n
+  rw [hrun]; rfl
+
+/-- **Ledger safety, faithful model (partial: under `NoStale`).** Whenever `emitProgress` would
+put `v` on the output channel, every real delivery committed at or before `v` anywhere in the
+trace is completely written at that point. -/
+theorem ledger_emit_safe_partial {tr : List Op} (hC : Contract tr) (hS : NoStale tr) {n v : Nat}
+    (hemit : tr[n]? = some Op.emit) {s : PgBifrost.Ledger.State}
+    (hrun : PgBifrost.Ledger.run (tr.take n) = some s) (hv : PgBifrost.Ledger.emitVal s = some v)
+    {i t k tot c : Nat} (hk : tr[i]? = some (Op.seen t k tot c true)) (hcv : c ≤ v) :
+    wsum (tr.take n) k = tot := by
+  obtain ⟨s', hrun', hitems, _⟩ := PgBifrost.LedgerRefine.run_refine' hC hS n
+  rw [hrun] at hrun'; cases hrun'
+  rw [PgBifrost.LedgerRefine.emitVal_eq, hitems] at hv
+  exact emit_safe hC hS hemit hv hk hcv
+
+/-! ### non-vacuity -/
+
+/-- Two transactions; delivery `k11` of txn 1 is interrupted after its rows were written (never
+gets a `seen`) and txn 1 is redelivered under the new key `k12`, whose rows are written before
+its commit is seen; two emits, both of which report progress. -/
+def exTrace : List Op :=
+  [.written 1 11 2, .written 1 12 1, .seen 1 12 1 100 true, .emit,
+   .seen 2 23 1 200 true, .written 2 23 1, .emit]
+
+theorem exTrace_contract : Contract exTrace :=
+  PgBifrost.Spec.Ledger.checkContract_sound (by decide)
+
+theorem exTrace_noStale : NoStale exTrace :=
+  PgBifrost.Spec.Ledger.checkNoStale_sound (by decide)
+
+/-- all hypotheses of `ledger_emit_safe_partial` hold together on `exTrace`, at both emits -/
+example :
+    7 ≤ exTrace.length ∧ Contract exTrace ∧ NoStale exTrace ∧
+    (∃ s, exTrace[3]? = some Op.emit ∧ PgBifrost.Ledger.run (exTrace.take 3) = some s ∧
+      PgBifrost.Ledger.emitVal s = some 100 ∧
+      exTrace[2]? = some (Op.seen 1 12 1 100 true) ∧ 100 ≤ 100 ∧ wsum (exTrace.take 3) 12 = 1) ∧
+    (∃ s, exTrace[6]? = some Op.emit ∧ PgBifrost.Ledger.run (exTrace.take 6) = some s ∧
+      PgBifrost.Ledger.emitVal s = some 200 ∧
+      exTrace[4]? = some (Op.seen 2 23 1 200 true) ∧ 200 ≤ 200 ∧ wsum (exTrace.take 6) 23 = 1) :=
+  ⟨by decide, exTrace_contract, exTrace_noStale,
+   ⟨⟨[⟨1, 12, 100, 1, 1⟩], [(1, 12)]⟩, by decide⟩,
+   ⟨⟨[⟨2, 23, 200, 1, 1⟩], [(2, 23)]⟩, by decide⟩⟩
+
+/-- the theorem applied to the second emit of `exTrace` (for the first transaction's delivery) -/
+example : wsum (exTrace.take 6) 12 = 1 :=
+  ledger_emit_safe_partial exTrace_contract exTrace_noStale (n := 6) (v := 200)
+    (s := ⟨[⟨2, 23, 200, 1, 1⟩], [(2, 23)]⟩) (by decide) (by decide) (by decide)
+    (i := 2) (t := 1) (k := 12) (tot := 1) (c := 100) (by decide) (by decide)
+
+example : (PgBifrost.Ledger.run (exTrace.take 7)).isSome :=
+  ledger_never_panics_partial exTrace_contract exTrace_noStale 7
+
+/-! ### the full statement (without `NoStale`) is false -/
+
+/-- F1 witness: `k11` is a stale key of txn 1 that shows up after `k12` was committed. Its
+`written` makes the ledger drop the committed-but-unwritten entry `k12`, and the next emit
+acknowledges 200 ≥ 100 although none of `k12`'s 3 rows are written. -/
+def staleTrace : List Op :=
+  [.seen 1 12 3 100 true, .seen 2 23 1 200 true, .written 1 11 2, .written 2 23 1, .emit]
+
+/-- **`NoStale` cannot be dropped** from `ledger_emit_safe_partial`: a contract-respecting trace
+on which the faithful model emits `v` while a real delivery committed at `c ≤ v` is incomplete. -/
+theorem ledger_emit_unsafe_witness :
+    ∃ (tr : List Op) (n v : Nat) (s : PgBifrost.Ledger.State) (i t k tot c : Nat),
+      Contract tr ∧ tr[n]? = some Op.emit ∧
+      PgBifrost.Ledger.run (tr.take n) = some s ∧ PgBifrost.Ledger.emitVal s = some v ∧
+      tr[i]? = some (Op.seen t k tot c true) ∧ c ≤ v ∧ wsum (tr.take n) k < tot :=
+  ⟨staleTrace, 4, 200, ⟨[⟨2, 23, 200, 1, 1⟩, ⟨1, 11, 0, 2, 0⟩], [(2, 23), (1, 11)]⟩, 0, 1, 12, 3, 100,
+    PgBifrost.Spec.Ledger.checkContract_sound (by decide), by decide, by decide, by decide,
+    by decide, by decide, by decide⟩
+
+/-- and indeed the monitor for `NoStale` rejects it -/
+example : PgBifrost.Spec.Ledger.checkNoStale staleTrace = false := by decide
 
 end PgBifrost.Props.C01
